@@ -205,8 +205,26 @@ def _set(eng, st, args, kwargs, node):
 			return
 		raise Unsupported('set(iterable)')
 	r = Ref('set')
-	st.heap[r.addr] = []
+	st.heap[r.addr] = EmptySet()
 	yield st, r
+
+
+@lib('method:add')
+def _set_add(eng, st, obj, args, kwargs, node, site):
+	c = st.deref(obj)
+	if not (isinstance(obj, Ref) and obj.kind == 'set'):
+		raise Unsupported(f'add on {c!r}')
+	x = args[0]
+	if isinstance(c, EmptySet):
+		if is_intlike(x):
+			c = SSet.empty()
+		else:
+			raise Unsupported('set of non-integers')
+	if isinstance(c, SSet):
+		st.heap[obj.addr] = c.add(int_term(x))
+		yield st, None
+		return
+	raise Unsupported(f'add on {c!r}')
 
 
 @lib('builtins.float')
@@ -236,6 +254,8 @@ def value_kind(st, v):
 		return (v.kind,)
 	if isinstance(v, SArr):
 		return (v.kind,)
+	if isinstance(v, SSeq):
+		return ('list',)
 	if isinstance(v, bool) or isinstance(v, SBool):
 		return ('bool',)
 	if isinstance(v, int):
@@ -350,3 +370,66 @@ def _decode(eng, st, obj, args, kwargs, node, site):
 				yield s2, SArr(v.arr, v.length, v.off, None, 'str')
 		return
 	raise Unsupported(f'decode() of {v!r}')
+
+
+def _clamp_index(v, n, default):
+	"""PySlice_AdjustIndices for one bound (step 1)."""
+	if v is None:
+		return default
+	t = int_term(v)
+	t = z3.If(t < 0, t + n, t)
+	return z3.If(t < 0, 0, z3.If(t > n, n, t))
+
+
+@lib('method:find')
+def _find(eng, st, obj, args, kwargs, node, site):
+	"""bytes.find(sub[, start[, end]]): lowest index in [start, end - len(sub)] where sub occurs, else -1
+	(start/end clamped like slice bounds).  Stated for non-empty sub."""
+	from .. import spec as S
+	hay = st.deref(obj)
+	if not isinstance(hay, SArr):
+		raise Unsupported(f'find on {hay!r}')
+	needle = st.deref(args[0])
+	if isinstance(needle, (bytes, bytearray)):
+		raise Unsupported('find of a concrete needle')
+	if not isinstance(needle, SArr):
+		raise Unsupported(f'find of {needle!r}')
+	n, L = hay.length, needle.length
+	eng.oblige(st, site, 'needle-non-empty(library contract stated for len>=1)', L >= 1)
+	s = _clamp_index(args[1] if len(args) > 1 else None, n, z3.IntVal(0))
+	e = _clamp_index(args[2] if len(args) > 2 else None, n, n)
+	r = z3.Int(fresh_name('loc'))
+	p = z3.Int(fresh_name('p'))
+	oc = lambda t: S.occ(hay.arr, hay.off, needle.arr, needle.off, L, t)
+	notfound = z3.And(r == -1, z3.ForAll([p], z3.Implies(z3.And(s <= p, p + L <= e), z3.Not(oc(p)))))
+	found = z3.And(s <= r, r + L <= e, oc(r), z3.ForAll([p], z3.Implies(z3.And(s <= p, p < r), z3.Not(oc(p)))))
+	st.assume(z3.Or(notfound, found))
+	yield st, SInt(r)
+
+
+@lib('recmethod:__attrs_init__')
+def _attrs_init(eng, st, obj, args, kwargs, node, site):
+	rec = st.heap[obj.addr]
+	nf = dict(rec.fields)
+	nf.update(kwargs)
+	st.heap[obj.addr] = Record(rec.cls, nf)
+	yield st, None
+
+
+@lib('builtins.type')
+def _type(eng, st, args, kwargs, node):
+	v = st.deref(args[0])
+	if isinstance(v, Record):
+		yield st, ClassRef(v.cls)
+	else:
+		yield st, ExtObj('type', of=v)
+
+
+@lib('builtins.slice')
+def _slice(eng, st, args, kwargs, node):
+	if len(args) == 1:
+		yield st, SSlice(None, args[0], None)
+	elif len(args) == 2:
+		yield st, SSlice(args[0], args[1], None)
+	else:
+		yield st, SSlice(*args[:3])
